@@ -28,6 +28,25 @@ pub struct Opts {
     pub ta_timing: Option<TaTimingConfig>,
     /// `use_history_cache` (the daemon's default is true; krill's own tests all use false).
     pub history_cache: bool,
+    /// Applied to the configuration BEFORE `Config::process()` (fix / verify / resolve) runs, as the
+    /// content of a configuration file would be. None (all streams but `http`) = nothing.
+    pub pre_process: Option<PreProcess>,
+}
+
+/// A change of the configuration made before krill's own processing of it.
+#[derive(Clone)]
+pub struct PreProcess(pub std::sync::Arc<dyn Fn(&mut Config) + Send + Sync>);
+
+impl PreProcess {
+    pub fn new(f: impl Fn(&mut Config) + Send + Sync + 'static) -> Self {
+        PreProcess(std::sync::Arc::new(f))
+    }
+}
+
+impl std::fmt::Debug for PreProcess {
+    fn fmt(&self, f: &mut std::fmt::Formatter<'_>) -> std::fmt::Result {
+        f.write_str("PreProcess(..)")
+    }
 }
 
 impl Default for Opts {
@@ -49,6 +68,7 @@ impl Default for Opts {
             timing: None,
             ta_timing: None,
             history_cache: true,
+            pre_process: None,
         }
     }
 }
@@ -72,6 +92,21 @@ pub fn default_timing() -> IssuanceTimingConfig {
 
 /// A processed config using the given storage and `data_dir` for TLS keys, repository files and pid file.
 pub fn test_config(storage_uri: StorageUri, data_dir: &Path, opts: &Opts) -> Config {
+    try_test_config(storage_uri, data_dir, opts).expect("config.process")
+}
+
+/// The text of a configuration file, loaded the way the daemon loads it at start-up (`Config::create`:
+/// `Config::read_config` = krill's own TOML/serde loader with all its defaults, then `Config::process`),
+/// without initialising the logger. `Err`: what krill says about the file.
+pub fn load_config_text(text: &str, file: &Path) -> Result<Config, String> {
+    std::fs::write(file, text).map_err(|e| format!("write {}: {e}", file.display()))?;
+    let mut c = Config::read_config(file).map_err(|e| e.to_string())?;
+    c.process().map_err(|e| e.to_string())?;
+    Ok(c)
+}
+
+/// As `test_config`; `Err` if krill's processing refuses the configuration.
+pub fn try_test_config(storage_uri: StorageUri, data_dir: &Path, opts: &Opts) -> Result<Config, String> {
     let port = opts.port;
     let testbed = if opts.testbed {
         krill::constants::enable_test_mode();
@@ -143,11 +178,14 @@ pub fn test_config(storage_uri: StorageUri, data_dir: &Path, opts: &Opts) -> Con
         benchmark: None,
         ta_timing: opts.ta_timing.clone().unwrap_or_default(),
     };
-    res.process().expect("config.process");
+    if let Some(p) = &opts.pre_process {
+        (p.0)(&mut res);
+    }
+    res.process().map_err(|e| e.to_string())?;
     // Timing regimes outside what `Config::verify` accepts (margin >= lifetime) are set after
     // processing: they are how the harness reaches the "due" regime without moving the clock.
     if let Some(t) = opts.timing.clone() {
         res.issuance_timing = t;
     }
-    res
+    Ok(res)
 }
